@@ -43,16 +43,43 @@ type prop struct {
 var props = []prop{
 	{
 		ID: "C19", Title: "time safeguard", Level: "exploration",
-		LevelText:  "Generated measurements (true offset, request/response delays, silent peers, both flag settings) against a soundness oracle derived from the statement; the input space is a handful of integers and is sampled densely around the 2 s threshold.",
-		LevelNote:  "Trusts that synchronizedWithNetwork is the only decision point (robustirc.go calls it through the two exported wrappers) and that a measurement is fully described by Start/Result/End.",
-		Technique:  "property-based testing (rapid): soundness oracle + metamorphic relation over generated measurements",
-		DesignRef:  "4/C19",
-		Rule:       "cases are lists of 0-6 peers, each with a true clock offset, a request delay and a response delay (dense around +-2s, from ns to hours), answering or silent, under both settings of -disable_timesafeguard; non-trivial = some answering peer has |offset| in [1s,3s] or a round trip > 1s; distinct = hash of the concrete measurement list + flag",
+		LevelText:   "Generated measurements (true offset, request/response delays, silent peers, both flag settings) against a soundness oracle derived from the statement; the input space is a handful of integers and is sampled densely around the 2 s threshold.",
+		LevelNote:   "Trusts that synchronizedWithNetwork is the only decision point (robustirc.go calls it through the two exported wrappers) and that a measurement is fully described by Start/Result/End.",
+		Technique:   "property-based testing (rapid): soundness oracle + metamorphic relation over generated measurements",
+		DesignRef:   "4/C19",
+		Rule:        "cases are lists of 0-6 peers, each with a true clock offset, a request delay and a response delay (dense around +-2s, from ns to hours), answering or silent, under both settings of -disable_timesafeguard; non-trivial = some answering peer has |offset| in [1s,3s] or a round trip > 1s; distinct = hash of the concrete measurement list + flag",
 		Assumptions: []string{"a measurement is Start=t0, Result=t0+d1+offset, End=t0+d1+d2 with d1,d2 >= 0"},
 		Units: []unit{
 			{Name: "safeguard", Pkg: "internal/timesafeguard", Harness: "timesafeguard", Run: "^TestVerifC19$", Rapid: true, Quick: 160000, Thorough: 16000000, QuickTimeoutS: 300, ThoroughTimeoutS: 3000},
 		},
 	},
+}
+
+func ircUnit(name, run string, quick, thorough int) unit {
+	return unit{Name: name, Pkg: "internal/ircserver", Harness: "ircserver", Run: run, Rapid: true, Quick: quick, Thorough: thorough, QuickTimeoutS: 600, ThoroughTimeoutS: 3000}
+}
+
+func init() {
+	props = append(props, prop{
+		ID: "C06", Title: "no client line can crash the state machine", Level: "exploration",
+		LevelText:  "State-aware generated histories (all commands x roles x parameter shapes, mutated and garbage lines, conforming services traffic) applied through the same call sequence as FSM.applyRobustMessage with recover(); every line of every history is one evaluation of 'next line in a reachable state'.",
+		LevelNote:  "Services lines are protocol-conforming by construction (role read from the instance); session auth strings have the API's length; config values are well-formed; panics are attributed by the top two ircserver frames.",
+		Technique:  "property-based testing (rapid, state-aware history generator) with a crash oracle; native fuzzing of the line in the thorough tier",
+		DesignRef:  "4/C06",
+		Rule:       "case = generated history of 5-80 committed entries; each IRC line is applied to the state the history built; non-trivial = history in which >=3 lines got past the registration/unknown-command/MinParams gate into a command handler; distinct = hash of the entry list. counters give the number of lines evaluated and how many reached a handler; labels class:<role>:<COMMAND> count histories that exercised that command in that role",
+		Assumptions: []string{"lines from a services link are protocol-conforming (prefix where the protocol has one, full parameter lists, SVSNICK onto free nicknames)", "CreateSession data (the session secret) has at least 8 characters as the API always produces"},
+		Units:      []unit{ircUnit("lines", "^TestVerifC06$", 6000, 300000)},
+	})
+	props = append(props, prop{
+		ID: "C14", Title: "IRC state stays consistent", Level: "exploration",
+		LevelText:  "Generated mixed histories (nick changes incl. case-only and []\\ / {}| variants, joins/parts/kicks/quits/kills/glines, deletions and expiries, services SVS* commands, small session/channel limits, Marshal/Unmarshal round trips as history steps) with an in-package invariant walk over the three indexes after every entry.",
+		LevelNote:  "The case mapping and the validity grammar are re-stated in the harness independently of the code; SVSNICK only onto free nicknames and only for regular client sessions (the property's quantifier).",
+		Technique:  "property-based testing (rapid, stateful history generation) with a state invariant checked after every step",
+		DesignRef:  "4/C14",
+		Rule:       "case = generated history of 20-120 entries biased to membership changes; invariant walk after every entry (and after every inserted snapshot round trip); non-trivial = history with a nick change of a channel member AND a forced removal (KICK/KILL) AND a session that ended while in >=2 channels; distinct = hash of the entry list",
+		Assumptions: []string{"SVSNICK targets regular client sessions and free nicknames", "services introduce pseudo-clients with valid nicknames"},
+		Units:      []unit{ircUnit("invariants", "^TestVerifC14$", 6000, 300000)},
+	})
 }
 
 // notApplicable lists properties that are not claimed (yet), with the reason.
